@@ -656,6 +656,8 @@ class MindsDBParser(Parser):
     def describe(self, p):
         if isinstance(p[1], Identifier):
             type = p[1].parts[-1]
+            if isinstance(type, Star):
+                raise ParsingException(f'Object type can not be *: DESCRIBE {str(p[1])}')
         else:
             type = p[1]
         type = type.replace(' ', '_')
